@@ -259,6 +259,18 @@ def judge(family, case, rec):
                       "empirical CDF deviates by %.4f from the documented law (DKW band %.4f at n=%d, delta=1e-12)" % (ks, eps, N),
                       sample_mean=float(x.mean()), sample_var=float(x.var()), expected_mean=mu, expected_var=var)
     # moments with escalation
+    for stat_name, stat_fn in (("lag2", lambda y: S.z_lag(y, 2)), ("lag5", lambda y: S.z_lag(y, 5)), ("halves", lambda y: S.z_halves(y, var))):
+        zz = stat_fn(x)
+        rec.max("max|z|-" + stat_name, abs(zz))
+        if abs(zz) > S.Z_SUSPECT:
+            rec.count("escalations")
+
+            def rerun_s(r, n, stat_fn=stat_fn):
+                np.random.seed(util.derive_seed("C20esc2", kind, params, s, r) % (2**32))
+                return stat_fn(f(n))
+            bad, zs = S.confirm(rerun_s, N)
+            if bad:
+                rec.violation("C20:%s-%s" % (kind, stat_name), family, case, "%s statistic z = %s on three fresh seeds: draws are not i.i.d." % (stat_name, ["%.1f" % v for v in zs]))
     zm, zv, zl = S.z_mean(x, mu, var), S.z_var(x, mu, var, kurt), S.z_lag1(x)
     rec.max("max|z|-mean", abs(zm))
     rec.max("max|z|-variance", abs(zv))
